@@ -14,7 +14,7 @@ from hypothesis import strategies as st
 from . import types as G
 
 FX = "vf.gen.fixtures."
-ORDER = ["pos", "posq", "rest", "pair", "many", "flag", "fn", "ty", "cnt", "short", "grp.v", "grp.w", "dc", "mdls"]
+ORDER = ["pos", "posq", "rest", "pair", "many", "flag", "fn", "ty", "cnt", "short", "grp.v", "grp.w", "dc", "mdls", "st"]
 POSITIONALS = ("pos", "posq", "rest")
 SCALARS = {"int": int, "str": str, "float": float, "color": None}
 
@@ -44,6 +44,7 @@ def recipes():
         "dc": st.fixed_dictionaries({"opt_default": st.sampled_from(["SubA", "Base"])}),
         # two class-typed options, the name of the first a prefix of the second's, both with a default spec that has init_args
         "mdls": st.fixed_dictionaries({"first": st.sampled_from(["mdl", "mdl_ema"])}),
+        "st": st.fixed_dictionaries({"action": st.sampled_from(["store_true", "store_false"])}),  # a plain argparse flag
     }
     return st.tuples(st.fixed_dictionaries({}, optional=part), st.booleans()).filter(lambda t: len(t[0]) >= 2).map(
         lambda t: {"parts": {n: t[0][n] for n in ORDER if n in t[0]}, "env": t[1]})
@@ -108,6 +109,8 @@ def build(recipe, **kw):
             DC.__module__ = __name__
             globals()["KindsDC"] = DC
             p.add_argument("--dc", type=DC, default=DC())
+        elif name == "st":
+            p.add_argument("--st", action=s["action"])
         elif name == "mdls":
             for nm in (["mdl", "mdl_ema"] if s["first"] == "mdl" else ["mdl_ema", "mdl"]):
                 p.add_argument("--" + nm, type=F.Base, default={"class_path": FX + "SubA", "init_args": {"q": "q-" + nm}})
@@ -168,6 +171,8 @@ def values_for(recipe):
                 v[name] = draw(st.lists(_scalar_value(s["type"]), min_size=1 if s["nargs"] == "+" else 0, max_size=3))
             elif name in ("flag", "grp.w") and give:
                 v[name] = draw(st.booleans())
+            elif name == "st" and give:
+                v[name] = s["action"] == "store_true"  # (the command line can only switch the flag away from its default)
             elif name == "fn" and give:
                 v[name] = draw(st.sampled_from([FX + "fn_a", FX + "fn_b"] + ([None] if s["optional"] else [])))
             elif name == "ty" and give:
@@ -258,6 +263,8 @@ def argv_for(recipe, values, layout=0):
                 swallow = swallow or s["style"] == "nargs?"
         elif name == "grp.w":
             opts.append("--grp.w" if v else "--no_grp.w")
+        elif name == "st":
+            opts.append("--st")
         elif name == "short":
             opts += ["-s", raw(v)] if layout // 2 % 2 == 0 and not raw(v).startswith("-") and raw(v) != "" else ["--short=" + raw(v)]
         elif name == "mdls":
